@@ -17,7 +17,6 @@ import (
 
 	"github.com/nyaruka/gocommon/dates"
 	"github.com/nyaruka/gocommon/urns"
-	"github.com/nyaruka/goflow/contactql"
 	"verif/mc"
 )
 
@@ -735,5 +734,3 @@ func init() {
 		Budget:      map[string]time.Duration{"quick": 3 * time.Minute, "thorough": 15 * time.Minute},
 	})
 }
-
-var _ = contactql.OpEqual
